@@ -798,12 +798,16 @@ func (n *node) size() int {
 	return s
 }
 
+// depth counts operator levels (object wrappers around an operand are not a level of their own).
 func (n *node) depth() int {
 	d := 0
 	for _, k := range n.Kids {
 		if kd := k.depth(); kd > d {
 			d = kd
 		}
+	}
+	if n.Op == "wrap" {
+		return d
 	}
 	return d + 1
 }
